@@ -216,11 +216,11 @@ int ieee80211_radiotap_iterator_init(struct ieee80211_radiotap_iterator *iterato
 
     /* find payload start allowing for extended bitmap(s) */
 
-    if (iterator->_bitmap_shifter & (1 << IEEE80211_RADIOTAP_EXT)) {
+    if (iterator->_bitmap_shifter & (1U << IEEE80211_RADIOTAP_EXT)) {
         if ((unsigned long) iterator->_arg - (unsigned long) iterator->_rtheader + sizeof(uint32_t) >
             (unsigned long) iterator->_max_length)
             return -EINVAL;
-        while (get_unaligned_le32(iterator->_arg) & (1 << IEEE80211_RADIOTAP_EXT)) {
+        while (get_unaligned_le32(iterator->_arg) & (1U << IEEE80211_RADIOTAP_EXT)) {
             iterator->_arg += sizeof(uint32_t);
 
             /*
